@@ -677,3 +677,16 @@ pub fn z_more4(a: In) -> Out {
         0,
     ]
 }
+
+pub fn p_more2(a: In) -> Out {
+    let mut x = a[0] as u8;
+    let r = a[1] as u8;
+    x -= &r;
+    let mut y = a[2];
+    y <<= &(a[3] % 40);
+    let mut z = a[4] as u16;
+    z *= &(a[5] as u16);
+    let n = -&(a[4] as i8);
+    let q = &(a[0] as i8) / &((a[1] % 3) as i8 - 1);
+    [u64::from(x), u64::from(y), u64::from(z), n as u8 as u64, q as u8 as u64, 0, 0, 0]
+}
